@@ -754,7 +754,7 @@ func (a *Analysis) CheckC06(rep *Report) {
 					rep.Ob("A1-patch-inside-own-bytes", key+":patch", okp, epos, "in-place write "+e.Dst.Pretty()+" is not provably inside the bytes appended by this call")
 				case EvStore:
 					if root := addrRoot(e.Dst); root != nil {
-						if root.Op == "global" {
+						if root.Op == "global" && !a.onceAssignment(e) {
 							rep.Ob("A3-no-global-state", key+":"+root.Name, false, epos, "encoding writes package-level state "+e.Dst.Pretty())
 						}
 						if root.Op == "param" && isBufferType(root.Type) {
